@@ -19,7 +19,8 @@ RULE = ("exhaustive enumeration of control-flow skeletons (blocks of 1-2 stateme
         "placement {module, function, class} x 3 branch schedules x option combinations, plus a seeded "
         "random sampler of deeper skeletons (nesting<=5, 6-14 statements, placements incl. method and "
         "function-defined-in-a-loop). A case is distinct by (source, schedule, options) and non-trivial "
-        "iff the original's run actually *took* a break/continue/return (observed by an instrumented twin).")
+        "iff the original's run actually *took* a break/continue/return (observed by an instrumented twin)."
+        ' Every enumerated skeleton with a loop is also rendered with assignment expressions in all loop headers (`while (t := w(k)):`, `for v in (s := it(k)):`, observed from the body); every third `return` of a skeleton is a bare `return` after its marker.')
 ASSUMPTIONS = [
     "CPython executing the source is the reference model",
     "probes answer from a seeded schedule consumed in call order; the same schedule is used for both runs",
